@@ -412,13 +412,22 @@ func vC12GenCommitCase(t *testing.T, r *vRand, c *vC12Cfg, o int, tokens *vInter
 			ConfigVersion: 1, RmnReportVersion: cciptypes.Bytes32{2}}
 		if bad == "rmncfg" && r.Chance(1, 3) {
 			// boundary: a config that is non-empty only because of one field
-			rc = rmntypes.RemoteConfig{F: 1}
+			// ... or the opposite: everything set except F and the signers ("RMN not enforced": F = 0, no signers — seeded
+			// change C12-13 let exactly that shape through before the role check)
+			switch r.Intn(3) {
+			case 0:
+				rc = rmntypes.RemoteConfig{F: 1}
+			case 1:
+				rc.F = 0
+			default:
+				rc = rmntypes.RemoteConfig{ContractAddress: []byte{7}}
+			}
 			nsig = 0
 		}
 		for k := 0; k < nsig; k++ {
 			rc.Signers = append(rc.Signers, rmntypes.RemoteSignerInfo{OnchainPublicKey: []byte{byte(k + 1)}, NodeIndex: uint64(k)})
 		}
-		if mal() {
+		if len(rc.Signers) > 0 && mal() {
 			switch r.Intn(6) {
 			case 0:
 				rc.ConfigDigest = cciptypes.Bytes32{}
